@@ -785,3 +785,38 @@ example : Timeline.expected oSong' [] oRoot' = Timeline.expected oSong [] oRoot 
 end OptEx
 
 end Ctrmml.C02
+
+/-! ### the executable transcription of the original-song hypotheses is sound -/
+namespace Ctrmml.C02
+open Ctrmml Ctrmml.Expand Ctrmml.Opt Ctrmml.OptSteps Ctrmml.C01 Ctrmml.Fragment Tables
+
+/-- `Fragment.optOriginalB` (what the judge evaluates on the original song of a `convo` case) implies
+the hypotheses of `C02_optimised_song_roundtrip_nodrum_partial` on the original song -/
+theorem optOriginal_of_B {song : Song} {passes : Nat} (h : optOriginalB song (initialSubId song) passes = true) :
+    SongWF song ∧ (song.tracks.map (·.1)).Pairwise (· < ·) ∧ (∀ p ∈ song.tracks, p.1 < 32767) ∧
+      (∀ id, song.track? id ≠ none → okTrack song id) ∧ initialSubId song + (passes : Int) < 32768 ∧ NoDrumSong song := by
+  unfold optOriginalB at h
+  simp only [Bool.and_eq_true, List.all_eq_true, decide_eq_true_eq, Bool.or_eq_true, bne_iff_ne, ne_eq, beq_iff_eq] at h
+  obtain ⟨⟨hs, ht⟩, hc⟩ := h
+  have hsorted := SongTop.sorted_of_B _ hs
+  have hnd : (song.tracks.map (·.1)).Nodup := hsorted.imp (fun h => Nat.ne_of_lt h)
+  refine ⟨⟨hnd, fun p hp => ?_⟩, hsorted, fun p hp => (ht p hp).1.1.1, fun id hid => ?_, hc, fun p hp e he => ?_⟩
+  · obtain ⟨⟨⟨_, hlen⟩, hev⟩, _⟩ := ht p hp
+    refine ⟨fun e he => (hev e he).1.1, fun e he te => ?_, hlen⟩
+    rcases (hev e he).1.2 with h1 | h1
+    · exact absurd te h1
+    · exact h1
+  · cases hl : song.track? id with
+    | none => exact absurd hl hid
+    | some t =>
+      have hmem : (id, t) ∈ song.tracks := mem_of_lookup hl
+      have hp := (ht (id, t) hmem).2
+      cases hperf : perf song t with
+      | error x => rw [show ((id, t) : Nat × List Event).2 = t from rfl, hperf] at hp; simp at hp
+      | ok items => exact ⟨t, items, hl, hperf⟩
+  · exact (((ht p hp).1.2) e he).2
+
+/-- the original song of the `OptEx` pair passes the executable test (one pass of the optimiser) -/
+example : optOriginalB OptEx.oSong (initialSubId OptEx.oSong) 1 = true := by decide +kernel
+
+end Ctrmml.C02
